@@ -409,7 +409,9 @@ def init_contract():
         def maker(st, name):
             v = mk(st, name)
             return v if always else SCond(st.fresh_bool('given_' + name), v, None)
-        return TSpec([(lab, maker)])
+        ts = TSpec([(lab, maker)])
+        ts.optional = not always      # the instance ranges over `None` as well
+        return ts
 
     params = [('self', TSpec([('Properties', fresh_self)]))]
     for n, w in zip(NAMES, TYPES):
